@@ -147,6 +147,15 @@ def decide_table(name, variant, bc, compat, out, budget):
                         if r2 == "unsat":
                             fail("rejects-member", fk + ": every value of this tuple type is in the type")
                             bad = True
+                elif D.tuple_generic(k):
+                    # a tuple built inside a generic function carries the generic tuple id at run
+                    # time (`wrap = #<'t>'t { Box[$] }` tags its results Box['t]); a value whose
+                    # compile-time type is an instance inside T must still be accepted, so the tag
+                    # is required whenever some value that can carry it is a member of T
+                    r2, tree = D.check(D.generic_tuple_formula(k, "under"), D.under(T))
+                    if r2 == "sat":
+                        fail("rejects-member", fk + ": generic tuple tag; the value %s can carry it and is in the type" % tree)
+                        bad = True
             if not bad:
                 out["ok"] += 1
         if len(out["fail"]) >= 6:
@@ -275,6 +284,15 @@ def main():
     # accept them)
     from checks.c10 import gen_functions
     corpus += [(n, s) for n, s in gen_functions() if "/partial" in n]
+    # tuples built inside generic functions (run-time tag = the generic tuple id) tested against
+    # flat, union, partial and nested patterns
+    GEN = "wrap = #<'t>'t { Box[$] }, wrap2 = #<'t, 'u>['t, 'u] { =[a, b] => Pair[a, b] }, lbl = #<'t>'t { Msg[body: $] },\n"
+    for i, (pty, pat) in enumerate([("(Box['int] | Other)", "Box['int]"), ("(Box['int] | Box['bin])", "Box['int]"),
+                                    ("(Pair['int, 'bin] | Other)", "Pair['int, 'bin]"), ("(Msg[body: 'int] | [])", "Msg[body: 'int]"),
+                                    ("(Box['int] | Other)", "(Box['int] | Other)"), ("(Msg[body: 'int] | Other)", "(body: 'int)"),
+                                    ("(Box[('int | [])] | Other)", "Box[('int | [])]"), ("(Box[Box['int]] | Other)", "Box[Box['int]]")]):
+        corpus.append(("gen_generic_tag/%d" % i,
+                       GEN + "f = #%s { | =%s => 1 | 0 },\ng = #%s { 0 },\n[&f, &g, 7 wrap, [1, 0x00] wrap2, 7 lbl, 7 wrap wrap]" % (pty, pat, pat)))
     budget_s = 20 if tier == "quick" else 90
     # the merged variant of a generated program is merged after a sibling that shares one of its
     # two type expressions: functions of the shared type are deduplicated onto the earlier
